@@ -1,108 +1,146 @@
-import PegVerif.Proofs.RefineNoastDefs
+import PegVerif.Proofs.RefineNoastSDefs
 /-
-  Refinement theorem RN (`-noast`) — leaves, sequence, lookahead, optional, and the token-producing
-  wrappers (where `-noast` differs: `cap`, inline action code, `add` without token buffer).
+  Refinement theorem RNS (`-noast -switch`) — leaves, sequence, lookahead, optional, and the
+  token-producing wrappers, for every setting of the `parentDetect`/`parentMultipleKey` flags
+  (`Lead`).  The cases of RefineNoastCases.lean, re-proved for the generalised motive `GoodNS`:
+  a terminal whose test is elided is `position++` alone (and cannot fail, by `Lead`); sequence,
+  `<…>`, implicit push and `?` hand the flags to the node executed first; `&e`, `!e` compile their
+  operand without them.
 -/
 namespace PegVerif
 open Noast
 
 variable {K : NKit} {P : Program} {cfg : Cfg} {env : CEnv} {G : Grammar} {inp : List Sym}
 
-/-- Only the position changed. -/
-theorem EffN.move {lbl s f} (p' : Nat) : EffN K inp lbl s f { s with pos := p' } f [] :=
-  ⟨fun _ _ => rfl, rfl, rfl, rfl, rfl⟩
-
 /-! ### leaves -/
 
-theorem goodN_chr_ok {p c} (h : inp[p]? = some c) :
-    GoodN K P cfg env inp (.chr c) p (.ok (p + 1) []) [] := by
-  intro ko st code pc s f hc hp
+theorem goodNS_chr_ok {p c} (h : inp[p]? = some c) :
+    GoodNS K P cfg env inp (.chr c) p (.ok (p + 1) []) [] := by
+  intro ko pd pmk st code pc s f hc hp _
   simp only [compile] at hc ⊢
-  simp only [Bool.false_and, Bool.false_eq_true, ↓reduceIte] at hc ⊢
-  obtain ⟨h1, hc1⟩ := hc.head
-  obtain ⟨h2, _⟩ := hc1.head
   have hlt := inp_lt_of_some h
   have hb : (bufOf inp)[s.pos]? = some c := by rw [hp.pos, buf_lt hlt, h]
   refine ⟨{ s with pos := s.pos + 1 }, f, by simp [hp.pos], EffN.move _, ?_⟩
-  refine Steps.trans (Steps.next (s' := s) (f' := f) h1 (by simp [stepLocal, hb])) ?_
-  exact Steps.next h2 (by simp [stepLocal])
+  by_cases hel : (pd && !pmk) = true
+  · -- test elided: `position++` only
+    simp only [hel, ↓reduceIte] at hc ⊢
+    obtain ⟨h2, _⟩ := hc.head
+    exact Steps.next h2 (by simp [stepLocal])
+  · simp only [hel, Bool.false_eq_true, ↓reduceIte] at hc ⊢
+    obtain ⟨h1, hc1⟩ := hc.head
+    obtain ⟨h2, _⟩ := hc1.head
+    refine Steps.trans (Steps.next (s' := s) (f' := f) h1 (by simp [stepLocal, hb])) ?_
+    exact Steps.next h2 (by simp [stepLocal])
 
-theorem goodN_chr_fail {p c} (hcE : c ≠ END) (h : inp[p]? ≠ some c) :
-    GoodN K P cfg env inp (.chr c) p .fail [] := by
-  intro ko st code pc s f hc hp
+theorem goodNS_chr_fail {p c} (hcE : c ≠ END) (h : inp[p]? ≠ some c) :
+    GoodNS K P cfg env inp (.chr c) p .fail [] := by
+  intro ko pd pmk st code pc s f hc hp hlead
   simp only [compile] at hc ⊢
-  simp only [Bool.false_and, Bool.false_eq_true, ↓reduceIte] at hc ⊢
-  obtain ⟨h1, _⟩ := hc.head
-  refine ⟨s, f, EffN.refl, by simp [jumps, Instr.target?], ?_⟩
-  intro pcko hl
-  rcases buf_cases hp.ple with ⟨x, hx, hbx⟩ | ⟨_, _, hbe⟩
-  · have hne : x ≠ c := by intro e; subst e; exact h hx
-    exact Steps.jump h1 (by rw [← hp.pos] at hbx; simp [stepLocal, hbx, hne]) hl
-  · exact Steps.jump h1 (by rw [← hp.pos] at hbe; simp [stepLocal, hbe, Ne.symm hcE]) hl
+  by_cases hel : (pd && !pmk) = true
+  · -- test elided: `Lead` says the symbol is `c`, so the semantics cannot fail
+    exfalso
+    simp only [Bool.and_eq_true, Bool.not_eq_true'] at hel
+    simp only [Lead] at hlead
+    have hpk := hlead hel.1 hel.2
+    cases hx : inp[p]? with
+    | none => rw [peek_of_none hx] at hpk; exact hcE hpk.symm
+    | some x => rw [peek_of_some hx] at hpk; subst hpk; exact h hx
+  · simp only [hel, Bool.false_eq_true, ↓reduceIte] at hc ⊢
+    obtain ⟨h1, _⟩ := hc.head
+    refine ⟨s, f, EffN.refl, by simp [jumps, Instr.target?], ?_⟩
+    intro pcko hl
+    rcases buf_cases hp.ple with ⟨x, hx, hbx⟩ | ⟨_, _, hbe⟩
+    · have hne : x ≠ c := by intro e; subst e; exact h hx
+      exact Steps.jump h1 (by rw [← hp.pos] at hbx; simp [stepLocal, hbx, hne]) hl
+    · exact Steps.jump h1 (by rw [← hp.pos] at hbe; simp [stepLocal, hbe, Ne.symm hcE]) hl
 
-theorem goodN_dot_ok (hW : WorldN K P cfg env G inp) {p c} (h : inp[p]? = some c) :
-    GoodN K P cfg env inp .dot p (.ok (p + 1) []) [] := by
-  intro ko st code pc s f hc hp
+theorem goodNS_dot_ok (hW : WorldNS K P cfg env G inp) {p c} (h : inp[p]? = some c) :
+    GoodNS K P cfg env inp .dot p (.ok (p + 1) []) [] := by
+  intro ko pd pmk st code pc s f hc hp _
   simp only [compile] at hc ⊢
-  simp only [Bool.false_eq_true, ↓reduceIte] at hc ⊢
-  obtain ⟨h1, _⟩ := hc.head
   have hlt := inp_lt_of_some h
   have hb : (bufOf inp)[s.pos]? = some c := by rw [hp.pos, buf_lt hlt, h]
   have hcE : c ≠ END := hW.inpOK c (List.mem_of_getElem? h)
   refine ⟨{ s with pos := s.pos + 1 }, f, by simp [hp.pos], EffN.move _, ?_⟩
-  exact Steps.next h1 (by simp [stepLocal, hb, hcE])
+  by_cases hel : pd = true
+  · -- test elided: `position++` only
+    simp only [hel, ↓reduceIte] at hc ⊢
+    obtain ⟨h2, _⟩ := hc.head
+    exact Steps.next h2 (by simp [stepLocal])
+  · simp only [hel, Bool.false_eq_true, ↓reduceIte] at hc ⊢
+    obtain ⟨h1, _⟩ := hc.head
+    exact Steps.next h1 (by simp [stepLocal, hb, hcE])
 
-theorem goodN_dot_fail {p} (h : inp[p]? = none) :
-    GoodN K P cfg env inp .dot p .fail [] := by
-  intro ko st code pc s f hc hp
+theorem goodNS_dot_fail {p} (h : inp[p]? = none) :
+    GoodNS K P cfg env inp .dot p .fail [] := by
+  intro ko pd pmk st code pc s f hc hp hlead
   simp only [compile] at hc ⊢
-  simp only [Bool.false_eq_true, ↓reduceIte] at hc ⊢
-  obtain ⟨h1, _⟩ := hc.head
-  refine ⟨s, f, EffN.refl, by simp [jumps, Instr.target?], ?_⟩
-  intro pcko hl
-  rcases buf_cases hp.ple with ⟨x, hx, _⟩ | ⟨_, _, hbe⟩
-  · rw [h] at hx; cases hx
-  · exact Steps.jump h1 (by rw [← hp.pos] at hbe; simp [stepLocal, hbe]) hl
+  by_cases hel : pd = true
+  · -- test elided: `Lead` says the position is inside the input, so the semantics cannot fail
+    exfalso
+    simp only [Lead] at hlead
+    have hlt := hlead hel
+    have : inp[p]? ≠ none := by simp; omega
+    exact this h
+  · simp only [hel, Bool.false_eq_true, ↓reduceIte] at hc ⊢
+    obtain ⟨h1, _⟩ := hc.head
+    refine ⟨s, f, EffN.refl, by simp [jumps, Instr.target?], ?_⟩
+    intro pcko hl
+    rcases buf_cases hp.ple with ⟨x, hx, _⟩ | ⟨_, _, hbe⟩
+    · rw [h] at hx; cases hx
+    · exact Steps.jump h1 (by rw [← hp.pos] at hbe; simp [stepLocal, hbe]) hl
 
-theorem goodN_rng_ok {p lo hi c} (h : inp[p]? = some c) (hl : lo ≤ c) (hh : c ≤ hi) :
-    GoodN K P cfg env inp (.rng lo hi) p (.ok (p + 1) []) [] := by
-  intro ko st code pc s f hc hp
+theorem goodNS_rng_ok {p lo hi c} (h : inp[p]? = some c) (hl : lo ≤ c) (hh : c ≤ hi) :
+    GoodNS K P cfg env inp (.rng lo hi) p (.ok (p + 1) []) [] := by
+  intro ko pd pmk st code pc s f hc hp _
   simp only [compile] at hc ⊢
-  simp only [Bool.false_and, Bool.false_eq_true, ↓reduceIte] at hc ⊢
-  obtain ⟨h1, hc1⟩ := hc.head
-  obtain ⟨h2, _⟩ := hc1.head
   have hlt := inp_lt_of_some h
   have hb : (bufOf inp)[s.pos]? = some c := by rw [hp.pos, buf_lt hlt, h]
   have hnot : ¬ (c < lo ∨ c > hi) := by omega
   refine ⟨{ s with pos := s.pos + 1 }, f, by simp [hp.pos], EffN.move _, ?_⟩
-  refine Steps.trans (Steps.next (s' := s) (f' := f) h1 (by simp [stepLocal, hb, hnot])) ?_
-  exact Steps.next h2 (by simp [stepLocal])
+  by_cases hel : (pd && !pmk) = true
+  · simp only [hel, ↓reduceIte] at hc ⊢
+    obtain ⟨h2, _⟩ := hc.head
+    exact Steps.next h2 (by simp [stepLocal])
+  · simp only [hel, Bool.false_eq_true, ↓reduceIte] at hc ⊢
+    obtain ⟨h1, hc1⟩ := hc.head
+    obtain ⟨h2, _⟩ := hc1.head
+    refine Steps.trans (Steps.next (s' := s) (f' := f) h1 (by simp [stepLocal, hb, hnot])) ?_
+    exact Steps.next h2 (by simp [stepLocal])
 
-theorem goodN_rng_fail {p lo hi} (hhi : hi < END)
+theorem goodNS_rng_fail {p lo hi} (hhi : hi < END)
     (h : ∀ c, inp[p]? = some c → c < lo ∨ hi < c) :
-    GoodN K P cfg env inp (.rng lo hi) p .fail [] := by
-  intro ko st code pc s f hc hp
+    GoodNS K P cfg env inp (.rng lo hi) p .fail [] := by
+  intro ko pd pmk st code pc s f hc hp hlead
   simp only [compile] at hc ⊢
-  simp only [Bool.false_and, Bool.false_eq_true, ↓reduceIte] at hc ⊢
-  obtain ⟨h1, _⟩ := hc.head
-  refine ⟨s, f, EffN.refl, by simp [jumps, Instr.target?], ?_⟩
-  intro pcko hl
-  rcases buf_cases hp.ple with ⟨x, hx, hbx⟩ | ⟨_, _, hbe⟩
-  · have hx' : x < lo ∨ x > hi := h x hx
-    exact Steps.jump h1 (by rw [← hp.pos] at hbx; simp [stepLocal, hbx, hx']) hl
-  · have : END < lo ∨ END > hi := Or.inr hhi
-    exact Steps.jump h1 (by rw [← hp.pos] at hbe; simp [stepLocal, hbe, this]) hl
+  by_cases hel : (pd && !pmk) = true
+  · exfalso
+    simp only [Bool.and_eq_true, Bool.not_eq_true'] at hel
+    simp only [Lead] at hlead
+    have hpk := hlead hel.1 hel.2
+    cases hx : inp[p]? with
+    | none => rw [peek_of_none hx] at hpk; omega
+    | some x => rw [peek_of_some hx] at hpk; have := h x hx; omega
+  · simp only [hel, Bool.false_eq_true, ↓reduceIte] at hc ⊢
+    obtain ⟨h1, _⟩ := hc.head
+    refine ⟨s, f, EffN.refl, by simp [jumps, Instr.target?], ?_⟩
+    intro pcko hl
+    rcases buf_cases hp.ple with ⟨x, hx, hbx⟩ | ⟨_, _, hbe⟩
+    · have hx' : x < lo ∨ x > hi := h x hx
+      exact Steps.jump h1 (by rw [← hp.pos] at hbx; simp [stepLocal, hbx, hx']) hl
+    · have : END < lo ∨ END > hi := Or.inr hhi
+      exact Steps.jump h1 (by rw [← hp.pos] at hbe; simp [stepLocal, hbe, this]) hl
 
-theorem goodN_pred_ok {p c} (h : cfg.rho c p = true) :
-    GoodN K P cfg env inp (.pred c) p (.ok p []) [] := by
-  intro ko st code pc s f hc hp
+theorem goodNS_pred_ok {p c} (h : cfg.rho c p = true) :
+    GoodNS K P cfg env inp (.pred c) p (.ok p []) [] := by
+  intro ko pd pmk st code pc s f hc hp _
   simp only [compile] at hc ⊢
   obtain ⟨h1, _⟩ := hc.head
   exact ⟨s, f, hp.pos, EffN.refl, Steps.next h1 (by simp [stepLocal, hp.pos, h])⟩
 
-theorem goodN_pred_fail {p c} (h : cfg.rho c p = false) :
-    GoodN K P cfg env inp (.pred c) p .fail [] := by
-  intro ko st code pc s f hc hp
+theorem goodNS_pred_fail {p c} (h : cfg.rho c p = false) :
+    GoodNS K P cfg env inp (.pred c) p .fail [] := by
+  intro ko pd pmk st code pc s f hc hp _
   simp only [compile] at hc ⊢
   obtain ⟨h1, _⟩ := hc.head
   refine ⟨s, f, EffN.refl, by simp [jumps, Instr.target?], ?_⟩
@@ -110,96 +148,102 @@ theorem goodN_pred_fail {p c} (h : cfg.rho c p = false) :
   exact Steps.jump h1 (by simp [stepLocal, hp.pos, h]) hl
 
 /-- A state-change statement `!{…}` appends to the machine's trace an entry that is not compared. -/
-theorem goodN_stmt {p c} (hk : K.keep c = false) : GoodN K P cfg env inp (.stmt c) p (.ok p []) [] := by
-  intro ko st code pc s f hc hp
+theorem goodNS_stmt {p c} (hk : K.keep c = false) : GoodNS K P cfg env inp (.stmt c) p (.ok p []) [] := by
+  intro ko pd pmk st code pc s f hc hp _
   simp only [compile] at hc ⊢
   obtain ⟨h1, _⟩ := hc.head
   refine ⟨{ s with trace := s.trace ++ [(c, s.text)] }, f, hp.pos, ?_, Steps.next h1 (by simp [stepLocal])⟩
   exact ⟨fun _ _ => rfl, rfl, by simp [obsN, List.filter_append, hk], rfl, rfl⟩
 
-theorem goodN_empty {e : Expr} {p} (he : ∀ ko st, (compile env e ko false false st).code = []) :
-    GoodN K P cfg env inp e p (.ok p []) [] := by
-  intro ko st code pc s f hc hp
+theorem goodNS_empty {e : Expr} {p} (he : ∀ ko pd pmk st, (compile env e ko pd pmk st).code = []) :
+    GoodNS K P cfg env inp e p (.ok p []) [] := by
+  intro ko pd pmk st code pc s f hc hp _
   rw [he]
   exact ⟨s, f, hp.pos, EffN.refl, by simpa using Steps.refl⟩
 
-theorem goodN_act {p c} : GoodN K P cfg env inp (.act c) p (.ok p []) [] :=
-  goodN_empty (by intro ko st; simp [compile])
+theorem goodNS_act {p c} : GoodNS K P cfg env inp (.act c) p (.ok p []) [] :=
+  goodNS_empty (by intro ko pd pmk st; simp [compile])
 
-theorem goodN_nil {p} : GoodN K P cfg env inp .nil p (.ok p []) [] :=
-  goodN_empty (by intro ko st; simp [compile])
+theorem goodNS_nil {p} : GoodNS K P cfg env inp .nil p (.ok p []) [] :=
+  goodNS_empty (by intro ko pd pmk st; simp [compile])
 
-theorem goodN_seq_nil {p} : GoodN K P cfg env inp (.seq []) p (.ok p []) [] :=
-  goodN_empty (by intro ko st; simp [compile, compileSeq])
+theorem goodNS_seq_nil {p} : GoodNS K P cfg env inp (.seq []) p (.ok p []) [] :=
+  goodNS_empty (by intro ko pd pmk st; simp [compile, compileSeq])
 
 /-! ### sequence -/
 
-theorem goodN_seq_fail {e es p evs} (ih : GoodN K P cfg env inp e p .fail evs) :
-    GoodN K P cfg env inp (.seq (e :: es)) p .fail evs := by
-  intro ko st code pc s f hc hp
+theorem goodNS_seq_fail {e es p evs} (ih : GoodNS K P cfg env inp e p .fail evs) :
+    GoodNS K P cfg env inp (.seq (e :: es)) p .fail evs := by
+  intro ko pd pmk st code pc s f hc hp hlead
+  simp only [Lead, LeadL] at hlead
   cases es with
   | nil =>
     simp only [compile, compileSeq] at hc ⊢
-    exact ih ko st code pc s f hc hp
+    exact ih ko pd pmk st code pc s f hc hp hlead
   | cons e' es' =>
     simp only [compile, compileSeq] at hc ⊢
-    obtain ⟨s2, f2, hF, hj, hst⟩ := ih ko st code pc s f hc.left hp
+    obtain ⟨s2, f2, hF, hj, hst⟩ := ih ko pd pmk st code pc s f hc.left hp hlead
     exact ⟨s2, f2, hF, by simp [jumps_append, hj], hst⟩
 
-theorem goodN_seq_ok_fail {e es p p1 f1 evs1 evs2}
+theorem goodNS_seq_ok_fail {e es p p1 f1 evs1 evs2}
     (hev : Eval G cfg.rho inp e p (.ok p1 f1) evs1)
     (hev2 : Eval G cfg.rho inp (.seq es) p1 .fail evs2)
-    (ih1 : GoodN K P cfg env inp e p (.ok p1 f1) evs1)
-    (ih2 : GoodN K P cfg env inp (.seq es) p1 .fail evs2) :
-    GoodN K P cfg env inp (.seq (e :: es)) p .fail (evs1 ++ evs2) := by
-  intro ko st code pc s f hc hp
+    (ih1 : GoodNS K P cfg env inp e p (.ok p1 f1) evs1)
+    (ih2 : GoodNS K P cfg env inp (.seq es) p1 .fail evs2) :
+    GoodNS K P cfg env inp (.seq (e :: es)) p .fail (evs1 ++ evs2) := by
+  intro ko pd pmk st code pc s f hc hp hlead
+  simp only [Lead, LeadL] at hlead
   cases es with
   | nil => cases hev2
   | cons e' es' =>
     simp only [compile, compileSeq] at hc ⊢
-    obtain ⟨s1, fr1, hpos1, hE, hst1⟩ := ih1 ko st code pc s f hc.left hp
-    have hp1 : PreN env inp code s1 p1 := hp.move hpos1 (Eval_bound hev hp.ple _ _ rfl).2
+    obtain ⟨s1, fr1, hpos1, hE, hst1⟩ := ih1 ko pd pmk st code pc s f hc.left hp hlead
+    have hp1 : PreNS env inp code s1 p1 := hp.move hpos1 (Eval_bound hev hp.ple _ _ rfl).2
     have hc2 := hc.right
-    obtain ⟨s2, f2, hF, hj, hst2⟩ := ih2 ko _ code _ s1 fr1 (by simpa only [compile] using hc2) hp1
+    obtain ⟨s2, f2, hF, hj, hst2⟩ := ih2 ko false false _ code _ s1 fr1
+      (by simpa only [compile] using hc2) hp1 (Lead_false _ _ _ _)
     refine ⟨s2, f2, hE.trans hF (compile_mono _ _ _ _ _ _), ?_, ?_⟩
     · simp only [compile] at hj; simp [jumps_append, hj]
     · intro pcko hl; exact hst1.trans (hst2 pcko hl)
 
-theorem goodN_seq_ok {e es p p1 f1 evs1 p2 f2 evs2}
+theorem goodNS_seq_ok {e es p p1 f1 evs1 p2 f2 evs2}
     (hev : Eval G cfg.rho inp e p (.ok p1 f1) evs1)
     (hev2 : Eval G cfg.rho inp (.seq es) p1 (.ok p2 f2) evs2)
-    (ih1 : GoodN K P cfg env inp e p (.ok p1 f1) evs1)
-    (ih2 : GoodN K P cfg env inp (.seq es) p1 (.ok p2 f2) evs2) :
-    GoodN K P cfg env inp (.seq (e :: es)) p (.ok p2 (f1 ++ f2)) (evs1 ++ evs2) := by
-  intro ko st code pc s f hc hp
+    (ih1 : GoodNS K P cfg env inp e p (.ok p1 f1) evs1)
+    (ih2 : GoodNS K P cfg env inp (.seq es) p1 (.ok p2 f2) evs2) :
+    GoodNS K P cfg env inp (.seq (e :: es)) p (.ok p2 (f1 ++ f2)) (evs1 ++ evs2) := by
+  intro ko pd pmk st code pc s f hc hp hlead
+  simp only [Lead, LeadL] at hlead
   cases es with
   | nil =>
     cases hev2
     simp only [compile, compileSeq] at hc ⊢
-    simpa using ih1 ko st code pc s f hc hp
+    simpa using ih1 ko pd pmk st code pc s f hc hp hlead
   | cons e' es' =>
     simp only [compile, compileSeq] at hc ⊢
-    obtain ⟨s1, fr1, hpos1, hE, hst1⟩ := ih1 ko st code pc s f hc.left hp
-    have hp1 : PreN env inp code s1 p1 := hp.move hpos1 (Eval_bound hev hp.ple _ _ rfl).2
+    obtain ⟨s1, fr1, hpos1, hE, hst1⟩ := ih1 ko pd pmk st code pc s f hc.left hp hlead
+    have hp1 : PreNS env inp code s1 p1 := hp.move hpos1 (Eval_bound hev hp.ple _ _ rfl).2
     have hc2 := hc.right
-    obtain ⟨s2, fr2, hpos2, hE2, hst2⟩ := ih2 ko _ code _ s1 fr1 (by simpa only [compile] using hc2) hp1
+    obtain ⟨s2, fr2, hpos2, hE2, hst2⟩ := ih2 ko false false _ code _ s1 fr1
+      (by simpa only [compile] using hc2) hp1 (Lead_false _ _ _ _)
     refine ⟨s2, fr2, hpos2, hE.trans hE2 (compile_mono _ _ _ _ _ _), ?_⟩
     simp only [compile] at hst2
     exact (hst1.trans hst2).cast (by simp [List.length_append]; omega)
 
 /-! ### lookahead -/
 
-theorem goodN_peekFor_ok {e p p1 f1 evs}
-    (ih : GoodN K P cfg env inp e p (.ok p1 f1) evs) :
-    GoodN K P cfg env inp (.peekFor e) p (.ok p []) evs := by
-  intro ko st code pc s f hc hp
+theorem goodNS_peekFor_ok {e p p1 f1 evs}
+    (ih : GoodNS K P cfg env inp e p (.ok p1 f1) evs) :
+    GoodNS K P cfg env inp (.peekFor e) p (.ok p []) evs := by
+  intro ko pd pmk st code pc s f hc hp _
+  have hlead := Lead_false inp p false e
   norm_code at hc
   obtain ⟨h1, hc⟩ := hc.head
   obtain ⟨h2, hc⟩ := hc.head
   have hcb := hc.left
   obtain ⟨h3, hc⟩ := hc.right.head
   obtain ⟨h4, _⟩ := hc.head
-  obtain ⟨s1, fr1, _, hE, hst⟩ := ih ko _ code _ s (f.set st.label (s.pos, s.ti)) hcb hp
+  obtain ⟨s1, fr1, _, hE, hst⟩ := ih ko false false _ code _ s (f.set st.label (s.pos, s.ti)) hcb hp hlead
   have hfr : fr1 st.label = (p, s.ti) := by
     rw [hE.frame st.label (Nat.lt_succ_self _)]; simp [Frame.set, hp.pos]
   refine ⟨{ s1 with pos := p, ti := s.ti }, fr1, rfl,
@@ -211,30 +255,32 @@ theorem goodN_peekFor_ok {e p p1 f1 evs}
   exact (Steps.next (s' := { s1 with pos := p, ti := s.ti }) (f' := fr1) h4 (by simp [stepLocal])).cast
     (by simp [List.length_append]; omega)
 
-theorem goodN_peekFor_fail {e p evs}
-    (ih : GoodN K P cfg env inp e p .fail evs) :
-    GoodN K P cfg env inp (.peekFor e) p .fail evs := by
-  intro ko st code pc s f hc hp
+theorem goodNS_peekFor_fail {e p evs}
+    (ih : GoodNS K P cfg env inp e p .fail evs) :
+    GoodNS K P cfg env inp (.peekFor e) p .fail evs := by
+  intro ko pd pmk st code pc s f hc hp _
+  have hlead := Lead_false inp p false e
   norm_code at hc
   obtain ⟨h1, hc⟩ := hc.head
   obtain ⟨h2, hc⟩ := hc.head
   have hcb := hc.left
-  obtain ⟨s2, fr2, hF, hj, hst⟩ := ih ko _ code _ s (f.set st.label (s.pos, s.ti)) hcb hp
+  obtain ⟨s2, fr2, hF, hj, hst⟩ := ih ko false false _ code _ s (f.set st.label (s.pos, s.ti)) hcb hp hlead
   refine ⟨s2, fr2, hF.unset (Nat.le_succ _) (Nat.le_refl _), by jmp, ?_⟩
   intro pcko hl
   refine (Steps.next (s' := s) (f' := f) h1 (by simp [stepLocal])).trans ?_
   refine (Steps.next (s' := s) (f' := f.set st.label (s.pos, s.ti)) h2 (by simp [stepLocal])).trans ?_
   exact (hst pcko hl)
 
-theorem goodN_peekNot_ok {e p evs}
-    (ih : GoodN K P cfg env inp e p .fail evs) :
-    GoodN K P cfg env inp (.peekNot e) p (.ok p []) evs := by
-  intro ko st code pc s f hc hp
+theorem goodNS_peekNot_ok {e p evs}
+    (ih : GoodNS K P cfg env inp e p .fail evs) :
+    GoodNS K P cfg env inp (.peekNot e) p (.ok p []) evs := by
+  intro ko pd pmk st code pc s f hc hp _
+  have hlead := Lead_false inp p false e
   norm_code at hc
   obtain ⟨h1, hc⟩ := hc.head
   obtain ⟨h2, hc⟩ := hc.head
   have hcb := hc.left
-  obtain ⟨s2, fr2, hF, hj, hst⟩ := ih st.label _ code _ s (f.set st.label (s.pos, s.ti)) hcb hp
+  obtain ⟨s2, fr2, hF, hj, hst⟩ := ih st.label false false _ code _ s (f.set st.label (s.pos, s.ti)) hcb hp hlead
   have hu : env.used st.label = true := hp.usedIn hcb hj
   obtain ⟨_, hc⟩ := hc.right.head
   simp only [CEnv.lbl, hu, ↓reduceIte, List.cons_append, List.nil_append] at hc
@@ -254,15 +300,16 @@ theorem goodN_peekNot_ok {e p evs}
   exact (Steps.next (s' := { s2 with pos := p, ti := s.ti }) (f' := fr2) h6 (by simp [stepLocal])).cast
     (by simp [List.length_append, CEnv.lbl, hu]; omega)
 
-theorem goodN_peekNot_fail {e p p1 f1 evs}
-    (ih : GoodN K P cfg env inp e p (.ok p1 f1) evs) :
-    GoodN K P cfg env inp (.peekNot e) p .fail evs := by
-  intro ko st code pc s f hc hp
+theorem goodNS_peekNot_fail {e p p1 f1 evs}
+    (ih : GoodNS K P cfg env inp e p (.ok p1 f1) evs) :
+    GoodNS K P cfg env inp (.peekNot e) p .fail evs := by
+  intro ko pd pmk st code pc s f hc hp _
+  have hlead := Lead_false inp p false e
   norm_code at hc
   obtain ⟨h1, hc⟩ := hc.head
   obtain ⟨h2, hc⟩ := hc.head
   have hcb := hc.left
-  obtain ⟨s1, fr1, _, hE, hst⟩ := ih st.label _ code _ s (f.set st.label (s.pos, s.ti)) hcb hp
+  obtain ⟨s1, fr1, _, hE, hst⟩ := ih st.label false false _ code _ s (f.set st.label (s.pos, s.ti)) hcb hp hlead
   obtain ⟨h3, _⟩ := hc.right.head
   refine ⟨s1, fr1, hE.unset (Nat.le_succ _) (Nat.le_refl _), by jmp, ?_⟩
   intro pcko hlk
@@ -273,16 +320,17 @@ theorem goodN_peekNot_fail {e p p1 f1 evs}
 
 /-! ### optional -/
 
-theorem goodN_query_ok {e p p1 f1 evs}
-    (ih : GoodN K P cfg env inp e p (.ok p1 f1) evs) :
-    GoodN K P cfg env inp (.query e) p (.ok p1 f1) evs := by
-  intro ko st code pc s f hc hp
+theorem goodNS_query_ok {e p p1 f1 evs}
+    (ih : GoodNS K P cfg env inp e p (.ok p1 f1) evs) :
+    GoodNS K P cfg env inp (.query e) p (.ok p1 f1) evs := by
+  intro ko pd pmk st code pc s f hc hp hlead
+  simp only [Lead] at hlead
   have hu : env.used (st.label + 1) = true := hp.usedIn hc (by norm_code at hc; jmp)
   norm_code at hc
   obtain ⟨h1, hc⟩ := hc.head
   obtain ⟨h2, hc⟩ := hc.head
   have hcb := hc.left
-  obtain ⟨s1, fr1, hpos1, hE, hst⟩ := ih st.label _ code _ s (f.set st.label (s.pos, s.ti)) hcb hp
+  obtain ⟨s1, fr1, hpos1, hE, hst⟩ := ih st.label pd pmk _ code _ s (f.set st.label (s.pos, s.ti)) hcb hp hlead
   obtain ⟨h3, hc⟩ := hc.right.head
   have hc := hc.right
   obtain ⟨_, hc⟩ := hc.head
@@ -298,15 +346,16 @@ theorem goodN_query_ok {e p p1 f1 evs}
   exact (Steps.next (s' := s1) (f' := fr1) h6 (by simp [stepLocal])).cast
     (by simp [List.length_append, CEnv.lbl, hu]; omega)
 
-theorem goodN_query_none {e p evs}
-    (ih : GoodN K P cfg env inp e p .fail evs) :
-    GoodN K P cfg env inp (.query e) p (.ok p []) evs := by
-  intro ko st code pc s f hc hp
+theorem goodNS_query_none {e p evs}
+    (ih : GoodNS K P cfg env inp e p .fail evs) :
+    GoodNS K P cfg env inp (.query e) p (.ok p []) evs := by
+  intro ko pd pmk st code pc s f hc hp hlead
+  simp only [Lead] at hlead
   norm_code at hc
   obtain ⟨h1, hc⟩ := hc.head
   obtain ⟨h2, hc⟩ := hc.head
   have hcb := hc.left
-  obtain ⟨s2, fr2, hF, hj, hst⟩ := ih st.label _ code _ s (f.set st.label (s.pos, s.ti)) hcb hp
+  obtain ⟨s2, fr2, hF, hj, hst⟩ := ih st.label pd pmk _ code _ s (f.set st.label (s.pos, s.ti)) hcb hp hlead
   have hu : env.used st.label = true := hp.usedIn hcb hj
   obtain ⟨_, hc⟩ := hc.right.head
   simp only [CEnv.lbl, hu, ↓reduceIte, List.cons_append, List.nil_append] at hc
@@ -336,34 +385,14 @@ theorem goodN_query_none {e p evs}
 
 /-! ### token-producing wrappers under `-noast` -/
 
-theorem compile_push_nonact_noast {e : Expr} (h : e.isAct = false) (hast : env.ast = false) (r : String)
-    (ko : Nat) (pd pmk : Bool) (st : CSt) :
-    compile env (.push e r) ko pd pmk st =
-      ⟨[.bb, .savePos st.label] ++ (compile env e ko pd pmk { st with label := st.label + 1 }).code ++
-        [.cap st.label] ++ [.be], (compile env e ko pd pmk { st with label := st.label + 1 }).st, false⟩ := by
-  cases e <;> simp_all [compile, Expr.isAct]
-
-theorem compile_ipush_nonact_noast {e : Expr} (h : e.isAct = false) (r : String) (ko : Nat) (pd pmk : Bool)
-    (st : CSt) :
-    compile env (.ipush e r) ko pd pmk st =
-      ⟨[.bb, .savePos st.label] ++ (compile env e ko pd pmk { st with label := st.label + 1 }).code ++
-        [.add r st.label] ++ [.be], (compile env e ko pd pmk { st with label := st.label + 1 }).st, false⟩ := by
-  cases e <;> simp_all [compile, Expr.isAct]
-
-/-- `buffer[b:e]` inside the input does not see the end symbol. -/
-theorem buf_extract {inp : List Sym} {b e : Nat} (hbe : b ≤ e) (he : e ≤ inp.length) :
-    (bufOf inp).extract b e = inp.extract b e := by
-  simp only [List.extract, bufOf]
-  rw [List.drop_append_of_le_length (by omega)]
-  rw [List.take_append_of_le_length (by simp; omega)]
-
 /-- The implicit push of an ordinary rule: body, then `add(rule, positionN)` — which only counts
     the token and updates `maxToken`. -/
-theorem goodN_ipush_ok (hW : WorldN K P cfg env G inp) {e : Expr} {r p p1 f1 evs}
+theorem goodNS_ipush_ok (hW : WorldNS K P cfg env G inp) {e : Expr} {r p p1 f1 evs}
     (hn : e.isAct = false) (hr : r ≠ "PegText") (hcode : K.codeOf r = none)
-    (ih : GoodN K P cfg env inp e p (.ok p1 f1) evs) :
-    GoodN K P cfg env inp (.ipush e r) p (.ok p1 [.node ⟨r, p, p1⟩ f1]) (evs ++ [⟨r, p, p1⟩]) := by
-  intro ko st code pc s f hc hp
+    (ih : GoodNS K P cfg env inp e p (.ok p1 f1) evs) :
+    GoodNS K P cfg env inp (.ipush e r) p (.ok p1 [.node ⟨r, p, p1⟩ f1]) (evs ++ [⟨r, p, p1⟩]) := by
+  intro ko pd pmk st code pc s f hc hp hlead
+  simp only [Lead] at hlead
   rw [compile_ipush_nonact_noast hn] at hc ⊢
   simp only [List.cons_append, List.nil_append, List.append_assoc] at hc ⊢
   obtain ⟨h1, hc⟩ := hc.head
@@ -371,7 +400,7 @@ theorem goodN_ipush_ok (hW : WorldN K P cfg env G inp) {e : Expr} {r p p1 f1 evs
   have hcb := hc.left
   obtain ⟨h3, hc⟩ := hc.right.head
   obtain ⟨h4, _⟩ := hc.head
-  obtain ⟨s1, fr1, hpos1, hE, hst⟩ := ih ko _ code _ s (f.set st.label (s.pos, (f st.label).2)) hcb hp
+  obtain ⟨s1, fr1, hpos1, hE, hst⟩ := ih ko pd pmk _ code _ s (f.set st.label (s.pos, (f st.label).2)) hcb hp hlead
   have hfr : (fr1 st.label).1 = p := by
     rw [hE.frame st.label (Nat.lt_succ_self _)]; simp [Frame.set, hp.pos]
   have hEadd : EffN K inp (st.label + 1) s1 fr1 (doAdd cfg r p s1) fr1 [⟨r, p, p1⟩] := by
@@ -388,12 +417,13 @@ theorem goodN_ipush_ok (hW : WorldN K P cfg env G inp) {e : Expr} {r p p1 f1 evs
     (by simp [List.length_append]; omega)
 
 /-- A capture `<e>`: body, then `text = string(buffer[positionN:position])`. -/
-theorem goodN_push_ok (hW : WorldN K P cfg env G inp) {e : Expr} {p p1 f1 evs}
+theorem goodNS_push_ok (hW : WorldNS K P cfg env G inp) {e : Expr} {p p1 f1 evs}
     (hn : e.isAct = false) (hev : Eval G cfg.rho inp e p (.ok p1 f1) evs)
-    (ih : GoodN K P cfg env inp e p (.ok p1 f1) evs) :
-    GoodN K P cfg env inp (.push e "PegText") p (.ok p1 [.node ⟨"PegText", p, p1⟩ f1])
+    (ih : GoodNS K P cfg env inp e p (.ok p1 f1) evs) :
+    GoodNS K P cfg env inp (.push e "PegText") p (.ok p1 [.node ⟨"PegText", p, p1⟩ f1])
       (evs ++ [⟨"PegText", p, p1⟩]) := by
-  intro ko st code pc s f hc hp
+  intro ko pd pmk st code pc s f hc hp hlead
+  simp only [Lead] at hlead
   rw [compile_push_nonact_noast hn hW.envAst] at hc ⊢
   simp only [List.cons_append, List.nil_append, List.append_assoc] at hc ⊢
   obtain ⟨h1, hc⟩ := hc.head
@@ -401,7 +431,7 @@ theorem goodN_push_ok (hW : WorldN K P cfg env G inp) {e : Expr} {p p1 f1 evs}
   have hcb := hc.left
   obtain ⟨h3, hc⟩ := hc.right.head
   obtain ⟨h4, _⟩ := hc.head
-  obtain ⟨s1, fr1, hpos1, hE, hst⟩ := ih ko _ code _ s (f.set st.label (s.pos, (f st.label).2)) hcb hp
+  obtain ⟨s1, fr1, hpos1, hE, hst⟩ := ih ko pd pmk _ code _ s (f.set st.label (s.pos, (f st.label).2)) hcb hp hlead
   have hfr : (fr1 st.label).1 = p := by
     rw [hE.frame st.label (Nat.lt_succ_self _)]; simp [Frame.set, hp.pos]
   obtain ⟨hpp1, hp1⟩ := Eval_bound hev hp.ple _ _ rfl
@@ -422,19 +452,21 @@ theorem goodN_push_ok (hW : WorldN K P cfg env G inp) {e : Expr} {p p1 f1 evs}
   exact (Steps.next (s' := { s1 with text := inp.extract p p1 }) (f' := fr1) h4 (by simp [stepLocal])).cast
     (by simp [List.length_append]; omega)
 
-theorem goodN_wrap_fail {w e : Expr} {p evs} {tail : Nat → Instr}
-    (hw : ∀ ko st, compile env w ko false false st =
-      ⟨[.bb, .savePos st.label] ++ (compile env e ko false false { st with label := st.label + 1 }).code ++
-        [tail st.label] ++ [.be], (compile env e ko false false { st with label := st.label + 1 }).st, false⟩)
-    (ih : GoodN K P cfg env inp e p .fail evs) :
-    GoodN K P cfg env inp w p .fail evs := by
-  intro ko st code pc s f hc hp
+theorem goodNS_wrap_fail {w e : Expr} {p evs} {tail : Nat → Instr}
+    (hw : ∀ ko pd pmk st, compile env w ko pd pmk st =
+      ⟨[.bb, .savePos st.label] ++ (compile env e ko pd pmk { st with label := st.label + 1 }).code ++
+        [tail st.label] ++ [.be], (compile env e ko pd pmk { st with label := st.label + 1 }).st, false⟩)
+    (hl : ∀ pd pmk, Lead inp p pd pmk w → Lead inp p pd pmk e)
+    (ih : GoodNS K P cfg env inp e p .fail evs) :
+    GoodNS K P cfg env inp w p .fail evs := by
+  intro ko pd pmk st code pc s f hc hp hlead
   rw [hw] at hc ⊢
   simp only [List.cons_append, List.nil_append, List.append_assoc] at hc ⊢
   obtain ⟨h1, hc⟩ := hc.head
   obtain ⟨h2, hc⟩ := hc.head
   have hcb := hc.left
-  obtain ⟨s2, fr2, hF, hj, hst⟩ := ih ko _ code _ s (f.set st.label (s.pos, (f st.label).2)) hcb hp
+  obtain ⟨s2, fr2, hF, hj, hst⟩ := ih ko pd pmk _ code _ s (f.set st.label (s.pos, (f st.label).2)) hcb hp
+    (hl _ _ hlead)
   refine ⟨s2, fr2, hF.unset (Nat.le_succ _) (Nat.le_refl _), by jmp, ?_⟩
   intro pcko hl
   refine (Steps.next (s' := s) (f' := f) h1 (by simp [stepLocal])).trans ?_
@@ -442,11 +474,11 @@ theorem goodN_wrap_fail {w e : Expr} {p evs} {tail : Nat → Instr}
   exact hst pcko hl
 
 /-- An action rule: the action's code runs right here, with the current `text`. -/
-theorem goodN_ipush_act (hW : WorldN K P cfg env G inp) {c r p}
+theorem goodNS_ipush_act (hW : WorldNS K P cfg env G inp) {c r p}
     (hr : r ≠ "PegText") (hcode : K.codeOf r = some c) (hk : K.keep c = true) :
-    GoodN K P cfg env inp (.ipush (.act c) r) p (.ok p [.node ⟨r, p, p⟩ []]) [⟨r, p, p⟩] := by
-  intro ko st code pc s f hc hp
-  have hw : (compile env (.ipush (.act c) r) ko false false st).code = [.bb, .stmt c, .be] := by
+    GoodNS K P cfg env inp (.ipush (.act c) r) p (.ok p [.node ⟨r, p, p⟩ []]) [⟨r, p, p⟩] := by
+  intro ko pd pmk st code pc s f hc hp _
+  have hw : (compile env (.ipush (.act c) r) ko pd pmk st).code = [.bb, .stmt c, .be] := by
     simp [compile, hW.envAst]
   rw [hw] at hc ⊢
   obtain ⟨h1, hc⟩ := hc.head
